@@ -24,6 +24,63 @@ def sh(cmd, **kw):
     return p.returncode, p.stdout.decode("utf-8", "replace")
 
 
+def confirm_build(prop, letter):
+    """C19-style seeds: the demonstration is a program that builds (compiles and links) and runs on the unchanged
+    tree and no longer builds with the change."""
+    import glob
+    src = os.path.join(SEED_IN, "out_%s" % prop, letter)
+    sid = "%s_%s" % (prop, letter)
+    wt = os.path.join(SEED_IN, "confirm_%s" % sid)
+    sh("git -C /repo worktree remove --force %s" % wt)
+    sh("git -C /repo worktree add %s HEAD" % wt)
+    meta = {"id": sid, "property": prop, "source": "independent sub-agent given only the property text and a scratch worktree",
+            "confirmed_at": time.strftime("%Y-%m-%d %H:%M:%S"), "ran": []}
+    try:
+        demos = sorted(glob.glob(os.path.join(src, "demo*.cpp")))
+        inc = "-I%s/include -I%s/external/tl -isystem /usr/include/eigen3" % (wt, wt)
+        build = "g++ -std=c++11 -O0 %s %s -o %s/demo" % (inc, " ".join(demos), wt)
+        rc0, out0 = sh(build)
+        rc0r, _ = sh("%s/demo" % wt) if rc0 == 0 else (1, "")
+        meta["ran"].append({"cmd": "g++ demo*.cpp -o demo && ./demo   (unchanged tree)", "rc_build": rc0, "rc_run": rc0r})
+        rc, out = sh("git -C %s apply %s/patch.diff" % (wt, src))
+        if rc != 0:
+            meta["verdict"] = "rejected: patch does not apply: " + out[-200:]
+            return meta
+        rc1, out1 = sh(build)
+        meta["ran"].append({"cmd": "same build with the change", "rc_build": rc1, "tail": out1[-500:]})
+        if rc0 != 0 or rc0r != 0 or rc1 == 0:
+            meta["verdict"] = "rejected: demonstration does not discriminate (build without=%s run=%s, build with=%s)" % (rc0, rc0r, rc1)
+            return meta
+        t0 = time.time()
+        rc, out = sh("/tmp/seed/build_and_test.sh %s" % wt, timeout=7200)
+        tail = out.strip().splitlines()[-8:]
+        ok = any("100% tests passed" in l for l in tail)
+        meta["ran"].append({"cmd": "repository's full suite with the change", "rc": rc, "tail": tail, "wall_s": int(time.time() - t0)})
+        if not ok:
+            meta["verdict"] = "rejected: the existing test-suite does not pass with the change"
+            return meta
+        meta["verdict"] = "kept"
+        notes = open(os.path.join(src, "notes.txt")).read() if os.path.exists(os.path.join(src, "notes.txt")) else ""
+        meta["needs_to_manifest"] = notes[:3000]
+        dst = os.path.join(VERIF, "seeded", sid)
+        os.makedirs(dst, exist_ok=True)
+        shutil.copy(os.path.join(src, "patch.diff"), dst)
+        for d in demos:
+            shutil.copy(d, dst)
+        return meta
+    finally:
+        sh("git -C /repo worktree remove --force %s" % wt)
+        shutil.rmtree(wt, ignore_errors=True)
+        if meta.get("verdict") == "kept":
+            mp = os.path.join(VERIF, "seeded", sid, "meta.json")
+            old = json.load(open(mp)) if os.path.exists(mp) else {}
+            old.update(meta)
+            json.dump(old, open(mp, "w"), indent=1)
+        os.makedirs(os.path.join(SEED_IN, "verdicts"), exist_ok=True)
+        json.dump(meta, open(os.path.join(SEED_IN, "verdicts", sid + ".json"), "w"), indent=1)
+        print(sid, meta.get("verdict"))
+
+
 def confirm(prop, letter, tsan=False):
     src = os.path.join(SEED_IN, "out_%s" % prop, letter)
     sid = "%s_%s" % (prop, letter)
@@ -131,7 +188,10 @@ def detect(sid, checks=None, patch_dir=None):
 
 if __name__ == "__main__":
     if sys.argv[1] == "confirm":
-        confirm(sys.argv[2], sys.argv[3], "--tsan" in sys.argv)
+        if "--build" in sys.argv:
+            confirm_build(sys.argv[2], sys.argv[3])
+        else:
+            confirm(sys.argv[2], sys.argv[3], "--tsan" in sys.argv)
     elif sys.argv[1] == "detect":
         sys.exit(detect(sys.argv[2], sys.argv[3:] or None))
     elif sys.argv[1] == "detect-raw":
